@@ -35,6 +35,7 @@ type world struct {
 	blocks   map[int]*block
 	byHash   map[felt.Felt]int
 	versions [][]int // versions[0] is version 1
+	digests  map[int]string // content of every block when it was built
 	nextTag  int
 	tip      *chainkit.Node // twin node holding the last version
 }
@@ -48,7 +49,7 @@ var (
 func newWorld(seed int64, newState bool, initLen int, plan []SrcStep) (*world, error) {
 	w := &world{
 		newState: newState, gen: chainkit.NewGen(seed), blocks: map[int]*block{},
-		byHash: map[felt.Felt]int{}, nextTag: 1,
+		byHash: map[felt.Felt]int{}, nextTag: 1, digests: map[int]string{},
 	}
 	w.tip = chainkit.NewNode(nil, newState)
 	var chain []int
@@ -108,15 +109,37 @@ func (w *world) appendBlock(n *chainkit.Node) (*block, error) {
 			d.DeployedContracts[*chainkit.F(a)] = &ch
 		}
 	}
-	addr := *chainkit.F(addrs[tag%len(addrs)])
-	// never a zero value: the legacy backend cannot revert a no-op zero write (C04's finding)
-	d.StorageDiffs[addr] = map[felt.Felt]*felt.Felt{*chainkit.F(uint64(1 + tag%4)): chainkit.F(uint64(1000 + tag))}
-	d.Nonces[addr] = chainkit.F(uint64(tag))
-	tx := w.gen.Tx(txKinds[tag%len(txKinds)])
-	rc := w.gen.Receipt(tx, []*core.Event{{From: w.gen.Felt(), Keys: w.gen.Felts(1), Data: w.gen.Felts(1)}})
+	// shapes: most blocks carry one transaction and one storage write; some are EMPTY (no transaction, empty
+	// state diff — only the header distinguishes them), some carry several transactions of different kinds
+	var (
+		txs []core.Transaction
+		rcs []*core.TransactionReceipt
+	)
+	ntx := 1
+	switch {
+	case height > 0 && tag%5 == 0:
+		ntx = 0
+	case tag%7 == 3:
+		ntx = 3
+	}
+	if ntx > 0 {
+		addr := *chainkit.F(addrs[tag%len(addrs)])
+		// never a zero value: the legacy backend cannot revert a no-op zero write (C04's finding)
+		d.StorageDiffs[addr] = map[felt.Felt]*felt.Felt{*chainkit.F(uint64(1 + tag%4)): chainkit.F(uint64(1000 + tag))}
+		d.Nonces[addr] = chainkit.F(uint64(tag))
+	}
+	for i := 0; i < ntx; i++ {
+		tx := w.gen.Tx(txKinds[(tag+i)%len(txKinds)])
+		var evs []*core.Event
+		if i%2 == 0 {
+			evs = []*core.Event{{From: w.gen.Felt(), Keys: w.gen.Felts(1), Data: w.gen.Felts(1)}}
+		}
+		txs = append(txs, tx)
+		rcs = append(rcs, w.gen.Receipt(tx, evs))
+	}
 	built, err := n.Append(chainkit.BlockSpec{
 		Version: versions[tag%len(versions)], Diff: d, Classes: classes,
-		Txs: []core.Transaction{tx}, Receipts: []*core.TransactionReceipt{rc}, Timestamp: uint64(1000 + tag),
+		Txs: txs, Receipts: rcs, Timestamp: uint64(1000 + tag),
 	})
 	if err != nil {
 		return nil, fmt.Errorf("build block tag %d height %d: %w", tag, height, err)
@@ -124,6 +147,7 @@ func (w *world) appendBlock(n *chainkit.Node) (*block, error) {
 	b := &block{tag: tag, height: height, parent: parent, built: built}
 	w.blocks[tag] = b
 	w.byHash[*built.Block.Hash] = tag
+	w.digests[tag] = digest(built.Block, built.Update)
 	return b, nil
 }
 
@@ -132,23 +156,62 @@ func (w *world) chain(ver int) []int { return w.versions[ver-1] }
 // oldFormat: the block's hash (pre-0.13.2) commits neither to its state diff nor to its receipts
 func (w *world) oldFormat(tag int) bool { return w.blocks[tag].built.Block.ProtocolVersion == "0.13.1" }
 
-// selfCheck makes sure the answer kinds are what the specification says they are: every "bad" copy fails
-// SanityCheckNewHeight, the forged copy passes it.
-func (w *world) selfCheck() error {
+// selfCheck: what the answer kinds are to the real verifier. Every "bad" copy must FAIL
+// SanityCheckNewHeight (returned as accepted: a verifier that accepts one of them is the defect);
+// the forged copy is expected to pass it (noted otherwise: the kind then degenerates to "bad").
+func (w *world) selfCheck() (accepted []string, forgedRejected bool) {
 	for tag, b := range w.blocks {
-		kinds := append([]string{}, corruptions...)
-		for _, c := range append(kinds, "", forgery) {
+		for _, c := range append(append([]string{}, corruptions...), "", forgery) {
 			if w.oldFormat(tag) && (c == "receipt" || c == "diff") {
 				continue
 			}
 			cb := w.committed(tag, c)
 			_, err := w.tip.BC.SanityCheckNewHeight(cb.Block, cb.StateUpdate, cb.NewClasses)
-			if pass := c == "" || c == forgery; pass != (err == nil) {
-				return fmt.Errorf("answer kind %q of block %d (%s): SanityCheckNewHeight says %v", c, b.height, b.built.Block.ProtocolVersion, err)
+			switch {
+			case c == "" && err != nil:
+				accepted = append(accepted, fmt.Sprintf("valid:%s", b.built.Block.ProtocolVersion))
+			case c == forgery:
+				forgedRejected = forgedRejected || err != nil
+			case c != "" && err == nil:
+				accepted = append(accepted, c)
 			}
 		}
 	}
-	return nil
+	return accepted, forgedRejected
+}
+
+// digest renders what identifies the content of a block and its state update (canonical: the state
+// diff enters through its commitment).
+func digest(b *core.Block, su *core.StateUpdate) string {
+	f := func(x *felt.Felt) string {
+		if x == nil {
+			return "nil"
+		}
+		return x.ShortString()
+	}
+	s := fmt.Sprintf("#%d %s p=%s root=%s ts=%d v=%s ntx=%d nev=%d seq=%s |", b.Number, f(b.Hash), f(b.ParentHash), f(b.GlobalStateRoot),
+		b.Timestamp, b.ProtocolVersion, b.TransactionCount, b.EventCount, f(b.SequencerAddress))
+	for _, tx := range b.Transactions {
+		s += " tx " + f(tx.Hash())
+	}
+	for _, rc := range b.Receipts {
+		s += fmt.Sprintf(" rc %s fee=%s ev=%d rev=%v", f(rc.TransactionHash), f(rc.Fee), len(rc.Events), rc.Reverted)
+	}
+	if su != nil {
+		c := su.StateDiff.Commitment()
+		s += fmt.Sprintf(" | su %s new=%s old=%s diff=%s len=%d", f(su.BlockHash), f(su.NewRoot), f(su.OldRoot), c.ShortString(), su.StateDiff.Length())
+	}
+	return s
+}
+
+// mutated reports a block whose content is no longer what was built.
+func (w *world) mutated() (int, bool) {
+	for tag, b := range w.blocks {
+		if digest(b.built.Block, b.built.Update) != w.digests[tag] {
+			return tag, true
+		}
+	}
+	return 0, false
 }
 
 func (w *world) has(ver int, tag int) bool {
@@ -192,6 +255,9 @@ func (w *world) committed(tag int, corr string) jsync.CommittedBlock {
 	hc := *b.Block.Header
 	blk := &core.Block{Header: &hc, Transactions: b.Block.Transactions, Receipts: b.Block.Receipts}
 	su := *b.Update
+	if corr == "receipt" && len(blk.Receipts) == 0 { // an empty block has no receipt to corrupt
+		corr = "timestamp"
+	}
 	switch corr {
 	case "":
 	case "hash":
@@ -223,6 +289,9 @@ func (w *world) committed(tag int, corr string) jsync.CommittedBlock {
 				}
 			}
 			sd.StorageDiffs[a] = nm
+		}
+		if first { // an empty state diff: the alteration is an additional storage write
+			sd.StorageDiffs[*chainkit.F(addrs[0])] = map[felt.Felt]*felt.Felt{*chainkit.F(77): chainkit.F(uint64(4000 + tag))}
 		}
 		su.StateDiff = &sd
 		if corr == forgery {
